@@ -6,6 +6,8 @@ mod checks;
 mod common;
 mod gen;
 mod model;
+mod dishonest;
+mod prover;
 mod mon;
 mod refhash;
 mod rng;
@@ -92,6 +94,9 @@ fn main() {
         "C02" => checks::c02::run(&ctx),
         "C03" => checks::c03::run(&ctx),
         "C04" => checks::c04::run(&ctx),
+        "C05" => checks::c05::run(&ctx),
+        "C06" => checks::c06::run(&ctx),
+        "C07" => checks::c07::run(&ctx),
         _ => {
             eprintln!("unknown property {prop}");
             2
